@@ -331,3 +331,89 @@ func VerifAppGraph() {
 	nd.Assert(at("init:A") < at("init:D") && at("init:B") < at("init:D"), "C05: a dependency that does not depend back is initialised first")
 	nd.Assert(count("run") == 1 && at("run") == len(g.ev)-1, "C13: the runner runs once, after every eager component is initialised")
 }
+
+// ---------------------------------------------------------------------------
+// C10: the order in which the dependencies of ONE holder are created must not depend on the
+// registries' enumeration order.  x and y refer to each other by name; a plain post-processor
+// (no early-reference support) replaces y after its initialization.  Whether start-up succeeds
+// depends on which of the two is created first - so that order has to be fixed.
+// ---------------------------------------------------------------------------
+
+type vPart interface{ Id() string }
+
+type vOX struct {
+	Peer vPart `wire:"oy"`
+}
+
+func (x *vOX) Id() string     { return "x" }
+func (x *vOX) Naming() string { return "ox" }
+
+type vOY struct {
+	Peer vPart `wire:"ox"`
+}
+
+func (y *vOY) Id() string     { return "y" }
+func (y *vOY) IsY()           {}
+func (y *vOY) Naming() string { return "oy" }
+
+type vOYProxy struct{ target *vOY }
+
+func (p *vOYProxy) Id() string { return "y-proxy" }
+
+// sorts first in Refresh, so it is the component that triggers the creation of x and y
+type vOHolderSlice struct {
+	Parts []vPart `wire:""`
+}
+
+func (h *vOHolderSlice) Naming() string { return "a-holder" }
+
+type vOHolderMixed struct {
+	P1 vPart `wire:"ox"`
+	P2 []any `func:"IsY"`
+}
+
+func (h *vOHolderMixed) Naming() string { return "a-holder" }
+
+type vOWrapper struct{}
+
+func (w *vOWrapper) PostProcessBeforeInitialization(c any, name string) (any, error) { return c, nil }
+func (w *vOWrapper) PostProcessAfterInitialization(c any, name string) (any, error) {
+	if y, ok := c.(*vOY); ok {
+		return &vOYProxy{target: y}, nil
+	}
+	return c, nil
+}
+
+func VerifAppOrderCycle() {
+	x, y := &vOX{}, &vOY{}
+	mixed := nd.Bool()
+	var holder any
+	hs, hm := &vOHolderSlice{}, &vOHolderMixed{}
+	if mixed {
+		holder = hm
+		nd.Cover("wire and func points in one holder")
+	} else {
+		holder = hs
+		nd.Cover("slice point")
+	}
+	comps := []any{holder, x, y, &vOWrapper{}}
+	rot := nd.Choose(len(comps))
+	comps = append(append([]any{}, comps[rot:]...), comps[:rot]...)
+	s := &App{Configure: &vICfg{}, registry: support.NewRegistry(), Factory: factory.Default()}
+	SetComponents(comps...)(s)
+	nd.Assert(s.initiate() == nil, "initiate ok")
+	err := s.run()
+	nd.Observe("started", err == nil)
+	// with x created before y the wrapped y is finished inside x's population and everybody sees the wrapper:
+	// that is what name order (the order Refresh itself uses) gives, whatever order the registries enumerate in
+	nd.Assert(err == nil, "C10: whether start-up succeeds does not depend on the order in which the registries enumerate the components")
+	if err != nil {
+		return
+	}
+	if !mixed {
+		nd.Assert(len(hs.Parts) == 2, "C06: a slice point receives every implementer exactly once")
+	} else {
+		nd.Assert(hm.P1 == vPart(x) && len(hm.P2) == 1, "C06: every point of the holder is populated")
+	}
+	nd.Assert(x.Peer != nil && x.Peer.Id() == "y-proxy", "C03: every holder sees the version the container finally publishes")
+}
